@@ -534,8 +534,9 @@ class World:
         except TimeoutError:
             if not cm.expired() or self.in_cancel_handler_at(task, t0 + d):
                 raise           # some inner timeout's error travelling through / undecided overlap with a handler
-            if self.loop.time() != t0 + d:
-                self.bad("c05:native-timeout-wrong-instant", "", f"asyncio.timeout({d}) entered at {t0} raised at {self.loop.time()}")
+            if self.loop.time() < t0 + d:
+                # (later is legitimate: a task group in the body first waits for shielded children)
+                self.bad("c05:native-timeout-early", "", f"asyncio.timeout({d}) entered at {t0} raised at {self.loop.time()}")
             self.stats["native_timeout_fired"] += 1
             if outermost and task.cancelling() != c0 and task not in self.native_targets:
                 self.bad("c05:cancelling-residue", "after-asyncio.timeout", f"{c0} -> {task.cancelling()}")
